@@ -87,9 +87,17 @@ def gen_cases(tier, seed):
             table.add_one_way_cycle(rng, tb)
         if rng.random() < 0.5:
             table.add_twin_unary_rows(rng, tb)
+        prng = intuniv.rng_for(seed, "C02p/pred", i)
+        if prng.random() < 0.4:
+            table.add_cycle_with_common_predecessor(rng, tb)
+        if prng.random() < 0.3:
+            table.add_sibling_cycle_gadget(prng, tb)
         yield {"id": k, "kind": "table", "table": tb, "positive": True,
                "db": rng.choice(("base", "base", "forget", "forest")), "root": 0,
-               "rng_seed": rng.randrange(10 ** 6), "smallest": rng.random() < 0.5}
+               "rng_seed": rng.randrange(10 ** 6), "smallest": rng.random() < 0.5,
+               # has_specification polled after every single work packet: a cycle may be closed
+               # (by a one-way or by a two-way row) after a poll has already looked at its edges
+               "poll_each_packet": intuniv.rng_for(seed, "C02p/poll", i).random() < 0.6}
         k += 1
 
 
@@ -141,6 +149,10 @@ def run_table(case):
     m_spec.set_context(packs=[pack], judge_productivity=judge, truth_empty=None)
     s = CombinatorialSpecificationSearcher(table.Lab(case["root"]), pack, ruledb=gen.build_db(case["db"]))
     cx.see("table_db", case["db"])
+    if case.get("poll_each_packet"):
+        clk, _ = vclock.install(vclock.VirtualClock(), vclock.BudgetClock(1))
+        m_search.attach(s, vclock.Schedule(clk, "interrupt"))
+        cx.count("c02.searches_polled_after_every_packet")
     try:
         spec = s.auto_search(smallest=case["smallest"])
     except SpecificationNotFound:
